@@ -155,7 +155,8 @@ func runC20(c *ctx) {
 				case "POD_NAMESPACE":
 					m[k] = r.pick([]string{"default", "prod", "ns-2"})
 				case "POD_NAME":
-					m[k] = r.pick([]string{"pod-a", "echo-7d9f-x2x"})
+					// (pod names may contain dots, also one that ends like the namespace)
+					m[k] = r.pick([]string{"pod-a", "echo-7d9f-x2x", "db.prod", "web-0.default", "a.ns-2"})
 				default:
 					m[k] = pod
 				}
